@@ -1,0 +1,85 @@
+//go:build verif
+// +build verif
+
+package account
+
+import (
+	"github.com/LemoFoundationLtd/lemochain-core/chain/types"
+	"github.com/LemoFoundationLtd/lemochain-core/common"
+)
+
+// VerifRawAccount is a deep copy of everything an Account holds in memory. It is used by the verification harness
+// to compare whole account states.
+type VerifRawAccount struct {
+	Data          *types.AccountData
+	Code          []byte
+	CodeIsDirty   bool
+	Suicided      bool
+	Events        int
+	NewestRecords map[types.ChangeLogType]uint32
+	StorageCached map[common.Hash][]byte
+	StorageDirty  map[common.Hash][]byte
+	CodeCached    map[common.Hash][]byte
+	CodeDirty     map[common.Hash][]byte
+	IdCached      map[common.Hash][]byte
+	IdDirty       map[common.Hash][]byte
+	EquityCached  map[common.Hash][]byte
+	EquityDirty   map[common.Hash][]byte
+}
+
+func verifCopyStorage(s Storage) map[common.Hash][]byte {
+	result := make(map[common.Hash][]byte, len(s))
+	for k, v := range s {
+		result[k] = common.CopyBytes(v)
+	}
+	return result
+}
+
+// VerifDump copies the raw state of an account returned by Manager.GetAccount or LogProcessor.GetAccount
+func VerifDump(accessor types.AccountAccessor) *VerifRawAccount {
+	var a *Account
+	switch acc := accessor.(type) {
+	case *SafeAccount:
+		a = acc.rawAccount
+	case *Account:
+		a = acc
+	case *ReadOnlyAccount:
+		a = &acc.Account
+	default:
+		return nil
+	}
+	records := make(map[types.ChangeLogType]uint32, len(a.newestRecords))
+	for k, v := range a.newestRecords {
+		records[k] = v
+	}
+	return &VerifRawAccount{
+		Data:          a.data.Copy(),
+		Code:          common.CopyBytes(a.code),
+		CodeIsDirty:   a.codeIsDirty,
+		Suicided:      a.suicided,
+		Events:        len(a.events),
+		NewestRecords: records,
+		StorageCached: verifCopyStorage(a.storage.cached),
+		StorageDirty:  verifCopyStorage(a.storage.dirty),
+		CodeCached:    verifCopyStorage(a.assetCode.cached),
+		CodeDirty:     verifCopyStorage(a.assetCode.dirty),
+		IdCached:      verifCopyStorage(a.assetId.cached),
+		IdDirty:       verifCopyStorage(a.assetId.dirty),
+		EquityCached:  verifCopyStorage(a.equity.cached),
+		EquityDirty:   verifCopyStorage(a.equity.dirty),
+	}
+}
+
+// VerifCachedAddresses lists the accounts which are loaded into the manager's cache
+func (am *Manager) VerifCachedAddresses() []common.Address {
+	result := make([]common.Address, 0, len(am.accountCache))
+	for addr := range am.accountCache {
+		result = append(result, addr)
+	}
+	return result
+}
+
+// VerifProcessor exposes the change log processor of the manager
+func (am *Manager) VerifProcessor() *LogProcessor {
+	return am.processor
+}
